@@ -1270,6 +1270,11 @@ impl Formatter {
         let mut s = input.as_ref().as_bytes();
 
         let mut dt = NaiveDateTime::new();
+        if T::IS_INTERVAL_YM || T::IS_INTERVAL_DT {
+            // An interval has no calendar defaults: a field missing from the format is zero.
+            dt.year = 0;
+            dt.day = 0;
+        }
 
         macro_rules! expect_char {
             ($ch: expr) => {{
